@@ -157,6 +157,35 @@ func (p *inValParser) value() (scV, bool) {
 			}
 			out.L = append(out.L, e)
 		}
+	case c == '{':
+		p.pos++
+		out := scV{K: "o"}
+		for {
+			p.ws()
+			if p.pos < len(p.s) && p.s[p.pos] == '}' {
+				p.pos++
+				return out, true
+			}
+			st := p.pos
+			for p.pos < len(p.s) && p.s[p.pos] != ':' && p.s[p.pos] != '}' {
+				p.pos++
+			}
+			if p.pos >= len(p.s) || p.s[p.pos] != ':' {
+				return scV{}, false
+			}
+			key := strings.TrimSpace(p.s[st:p.pos])
+			p.pos++
+			id, err := strconv.Atoi(strings.TrimLeft(key, "abcdefghijklmnopqrstuvwxyzABCDEFGHIJKLMNOPQRSTUVWXYZ_"))
+			if err != nil {
+				return scV{}, false
+			}
+			e, ok := p.value()
+			if !ok {
+				return scV{}, false
+			}
+			out.F = append(out.F, id)
+			out.L = append(out.L, e)
+		}
 	case c == '"':
 		end := strings.IndexByte(p.s[p.pos+1:], '"')
 		if end < 0 {
@@ -177,7 +206,7 @@ func (p *inValParser) value() (scV, bool) {
 		return v, v.K == "s" || v.K == "i"
 	default:
 		st := p.pos
-		for p.pos < len(p.s) && !strings.ContainsRune(" ,]\n", rune(p.s[p.pos])) {
+		for p.pos < len(p.s) && !strings.ContainsRune(" ,]}\n", rune(p.s[p.pos])) {
 			p.pos++
 		}
 		tok := p.s[st:p.pos]
@@ -571,6 +600,35 @@ func c17Gen(r *rand.Rand, tier string) []Case {
 					Tags:  append(append([]string{}, tags...), fmt.Sprintf("strategy-%d", strategy), fmt.Sprintf("includeDeprecated-%d", incl)),
 					Human: scHuman(docs)})
 			}
+		}
+	}
+	// defaults that are lists of input objects leaving out defaulted fields, on a directive argument, a
+	// field argument and an input field: introspection reports the default as the schema wrote it
+	for i := 0; i < 3; i++ {
+		obj := func(n int64) scV { return scV{K: "o", F: []int{10}, L: []scV{{K: "i", I: n}}} }
+		lst := &scV{K: "l", L: []scV{obj(int64(1 + i)), obj(int64(3 + i))}}
+		lt := scT{K: 1, Of: &scT{N: 30}}
+		in := scItem{K: kInput, N: 30, Inputs: []scArg{{N: 10, T: scT{N: 0}}, {N: 11, T: scT{N: 0}, Def: &scV{K: "i", I: 100}}}}
+		in2 := scItem{K: kInput, N: 31, Inputs: []scArg{{N: 10, T: lt, Def: lst}}}
+		d := scItem{K: kDirective, N: 10, Inputs: []scArg{{N: 10, T: lt, Def: lst}}, Locs: []int{9}}
+		q := scItem{K: kObject, N: 10, Fields: []scField{{N: 10, T: scT{N: 0}, Args: []scArg{{N: 12, T: lt, Def: lst}, {N: 13, T: scT{N: 31}}}}}, Dirs: []scDU{{N: 10}}}
+		w := []scItem{in, in2, d, q}
+		docs := [][]scItem{w}
+		if i == 1 {
+			docs = [][]scItem{{q, d, in2, in}}
+		} else if i == 2 {
+			docs = [][]scItem{{in, in2, d}, {q}}
+		}
+		var ds []sx.S
+		for _, dd := range docs {
+			ds = append(ds, scDocSx("ok", dd))
+		}
+		names := []sx.S{sx.A(30), sx.A(31), sx.A(10), sx.A(5010)}
+		for strategy := 0; strategy < 3; strategy++ {
+			input := sx.L("intro", sx.L("strategy", sx.A(strategy)), sx.L("incl", sx.A(i%2)),
+				append([]sx.S{"lookups"}, names...), append([]sx.S{"docs"}, ds...))
+			out = append(out, Case{ID: fmt.Sprintf("ilist%d-s%d", i, strategy), Input: input,
+				Tags: []string{"nontrivial", "list-of-objects-default", fmt.Sprintf("strategy-%d", strategy)}, Human: scHuman(docs)})
 		}
 	}
 	return out
